@@ -353,6 +353,18 @@ func (c *Ctx) kindFlowWithTypeTests(fn *ssa.Function, subject func(ssa.Value) bo
 				}
 			}
 		}
+		// `_, ok := subject.Interface().(T)` for a concrete T: where ok holds the kind is T's
+		if ex, ok := cond.(*ssa.Extract); ok && ex.Index == 1 {
+			if ta, ok := ex.Tuple.(*ssa.TypeAssert); ok && ta.CommaOk && !types.IsInterface(ta.AssertedType) {
+				if ic, ok := ta.X.(*ssa.Call); ok && core.CalleeKey(&ic.Call) == "reflect.Value.Interface" && subject(ic.Call.Args[0]) {
+					eq := cur & kindOfStaticType(ta.AssertedType)
+					if !neg {
+						return eq, cur
+					}
+					return cur, eq
+				}
+			}
+		}
 		return cur, cur
 	}
 	kf.full = refine
